@@ -21,6 +21,7 @@
 #include <type_traits>
 
 #include "xsimd/config/xsimd_inline.hpp"
+#include "xsimd/config/xsimd_verif_hooks.hpp"
 
 #ifdef XSIMD_ENABLE_XTL_COMPLEX
 #include "xtl/xcomplex.hpp"
@@ -779,6 +780,7 @@ namespace xsimd
             T0 r(static_cast<value_type_or_type<T0>>(1));
             while (1)
             {
+                XSIMD_VERIF_LOOP_TICK();
                 if (b & 1)
                 {
                     r *= a;
